@@ -1,6 +1,7 @@
 // Positive/negative examples for the zero-instance rules R-C16-6 (noexcept barrier) and R-C16-7 (parser state that
 // survives an exception).  Parsed with -fsyntax-only on every run of the C16 check; never linked or run.  The rule engine must
 // report `barrier` and `counted`, and must not report `guarded`, otherwise the check is ANALYSIS-BROKEN.
+#include <cctype>
 #include <cstddef>
 #include <cstring>
 #include <stdexcept>
@@ -136,5 +137,83 @@ namespace rkverif_c16 {
     while (end > begin && !isgraph(end[-1]))
       --end;
     return end;
+  }
+  // ---- R-C16-11: token extents
+  static void eat(char *&s, const char w)
+  {
+    if (*s != w)
+      throw std::runtime_error("unexpected character");
+    ++s;
+  }
+
+  std::string tok_quote_in_value(char *&s)          // must be reported: the opening quote is inside [begin, end)
+  {
+    char *begin = s;
+    eat(s, '"');
+    while (*s != '"' && *s != 0)
+      ++s;
+    char *end = s;
+    return std::string(begin, end);
+  }
+
+  std::string tok_value(char *&s)                   // must not be reported
+  {
+    eat(s, '"');
+    char *begin = s;
+    while (*s != '"' && *s != 0)
+      ++s;
+    char *end = s;
+    eat(s, '"');
+    return std::string(begin, end);
+  }
+
+  std::string tok_begin_plus_one(char *&s)          // must not be reported
+  {
+    char *begin = s + 1;
+    eat(s, '"');
+    while (*s != '"' && *s != 0)
+      ++s;
+    char *end = s;
+    return std::string(begin, end);
+  }
+
+  std::string tok_ident(char *&s)                   // must not be reported: the first byte passed a test that implies the scan condition
+  {
+    if (isalpha(*s) || *s == '_') {
+      char *begin = s;
+      ++s;
+      while (isalnum(*s) || *s == '_')
+        ++s;
+      char *end = s;
+      return std::string(begin, end);
+    }
+    return "";
+  }
+
+  std::string tok_end_behind(char *&s)              // must be reported: the closing quote is inside [begin, end)
+  {
+    eat(s, '"');
+    char *begin = s;
+    while (*s != '"' && *s != 0)
+      ++s;
+    eat(s, '"');
+    char *end = s;
+    return std::string(begin, end);
+  }
+
+  static void scanTo(char *&s, const char stop)
+  {
+    while (*s != stop && *s != 0)
+      ++s;
+  }
+
+  std::string tok_helper_scan(char *&s)             // must not be reported: the scan loop lives in a helper
+  {
+    eat(s, '\'');
+    char *begin = s;
+    scanTo(s, '\'');
+    char *end = s;
+    eat(s, '\'');
+    return std::string(begin, end);
   }
 }  // namespace rkverif_c16
